@@ -8,4 +8,463 @@ import MpirProofs.Lemmas.Conv
 namespace Mpir.Conv
 open Mpir
 
+/-! ## 1. One total order: mpz_cmp and everything consistent with it -/
+
+/-- mpz_cmp: for all well-formed operands (any sizes, any signs) the sign of the result is the sign of
+    the exact difference.  Hence mpz_cmp is `compare` on the integers: total, antisymmetric, transitive. -/
+theorem cmp_total_order (a b : Z) (ha : a.wf) (hb : b.wf) :
+    sgn (mpz_cmp a b) = sgn (a.toInt - b.toInt) := by
+  unfold mpz_cmp
+  dsimp only
+  by_cases hd : a.size - b.size ≠ 0
+  · rw [if_pos hd]
+    by_cases hp : a.size - b.size > 0
+    · have := Z.toInt_lt_of_size_lt hb ha (by omega)
+      simp only [hp, if_true]; exact sgn_eq_pos (by decide) (by omega)
+    · have := Z.toInt_lt_of_size_lt ha hb (by omega)
+      simp only [hp, if_false]; exact sgn_eq_neg (by decide) (by omega)
+  · rw [if_neg hd]
+    have hs : a.size = b.size := by omega
+    have hl : a.d.length = b.d.length := by rw [ha.1, hb.1, hs]
+    rw [cmp_spec _ _ ha.2.1 hb.2.1 hl]
+    unfold Z.toInt
+    by_cases hn : a.size ≥ 0
+    · have h1 : ¬ a.size < 0 := by omega
+      have h2 : ¬ b.size < 0 := by omega
+      simp only [hn, h1, h2, if_true, if_false, sgn_sgn]
+    · have h1 : a.size < 0 := by omega
+      have h2 : b.size < 0 := by omega
+      simp only [hn, h1, h2, if_true, if_false]
+      rw [← sgn_neg_eq, sgn_sgn]; congr 1; ring
+
+-- non-vacuity: two-limb operands of equal size differing in the low limb; opposite signs; different sizes
+example : mpz_cmp ⟨2, [5, 7]⟩ ⟨2, [6, 7]⟩ = -1 ∧ mpz_cmp ⟨-2, [5, 7]⟩ ⟨-2, [6, 7]⟩ = 1 ∧
+    mpz_cmp ⟨1, [B - 1]⟩ ⟨-2, [0, 1]⟩ = 1 ∧ (⟨-2, [0, 1]⟩ : Z).toInt = -(2 ^ 64) := by decide
+
+/-- antisymmetry, as a consequence -/
+theorem cmp_antisymm (a b : Z) (ha : a.wf) (hb : b.wf) : sgn (mpz_cmp a b) = -sgn (mpz_cmp b a) := by
+  rw [cmp_total_order a b ha hb, cmp_total_order b a hb ha, ← sgn_neg_eq]; congr 1; ring
+
+example : sgn (mpz_cmp ⟨1, [3]⟩ ⟨-1, [4]⟩) = 1 ∧ sgn (mpz_cmp ⟨-1, [4]⟩ ⟨1, [3]⟩) = -1 := by decide
+
+/-- transitivity, as a consequence -/
+theorem cmp_trans (a b c : Z) (ha : a.wf) (hb : b.wf) (hc : c.wf)
+    (h1 : sgn (mpz_cmp a b) ≤ 0) (h2 : sgn (mpz_cmp b c) ≤ 0) : sgn (mpz_cmp a c) ≤ 0 := by
+  rw [cmp_total_order _ _ ha hb] at h1
+  rw [cmp_total_order _ _ hb hc] at h2
+  rw [cmp_total_order _ _ ha hc]
+  have e1 := sgn_eq_iff (a.toInt - b.toInt)
+  have e2 := sgn_eq_iff (b.toInt - c.toInt)
+  have e3 := sgn_eq_iff (a.toInt - c.toInt)
+  rcases lt_trichotomy (a.toInt - c.toInt) 0 with h | h | h
+  · rw [sgn_neg h]; decide
+  · rw [h, sgn_zero]
+  · exfalso
+    have : ¬ (0 < a.toInt - b.toInt) := fun h' => by rw [sgn_pos h'] at h1; omega
+    have : ¬ (0 < b.toInt - c.toInt) := fun h' => by rw [sgn_pos h'] at h2; omega
+    omega
+
+example : sgn (mpz_cmp ⟨-1, [9]⟩ ⟨0, []⟩) ≤ 0 ∧ sgn (mpz_cmp ⟨0, []⟩ ⟨2, [0, 1]⟩) ≤ 0 ∧ sgn (mpz_cmp ⟨-1, [9]⟩ ⟨2, [0, 1]⟩) ≤ 0 := by decide
+
+/-- The defect repaired by /repo commit bf39310: the former `return dsize;` (a 64-bit difference returned as
+    `int`) breaks the order for x of 2^30 limbs against -x: the result is negative in both directions. -/
+example : mpz_cmp_old ⟨2 ^ 30, []⟩ ⟨-(2 ^ 30), []⟩ = -(2 ^ 31) ∧ mpz_cmp_old ⟨-(2 ^ 30), []⟩ ⟨2 ^ 30, []⟩ = -(2 ^ 31) ∧
+    mpz_cmp ⟨2 ^ 30, []⟩ ⟨-(2 ^ 30), []⟩ = 1 := by decide
+
+/-- mpz_sgn is the sign of the value. -/
+theorem sgn_spec (a : Z) (ha : a.wf) : mpz_sgn a = sgn a.toInt := by
+  obtain ⟨h1, h2, h3⟩ := Z.toInt_sign ha
+  unfold mpz_sgn
+  rcases lt_trichotomy a.size 0 with h | h | h
+  · rw [if_pos h, sgn_neg (h1 h)]
+  · rw [if_neg (by omega), if_neg (by omega), h2 h, sgn_zero]
+  · rw [if_neg (by omega), if_pos h, sgn_pos (h3 h)]
+
+example : mpz_sgn ⟨-3, [1, 2, 3]⟩ = -1 := by decide
+
+/-- mpz_cmp_ui (function form) is consistent with the order: sign of a - v for every unsigned long v. -/
+theorem cmp_ui_consistent (a : Z) (ha : a.wf) (v : Nat) (hv : v < B) :
+    sgn (mpz_cmp_ui a v) = sgn (a.toInt - v) := by
+  obtain ⟨h1, h2, h3⟩ := Z.toInt_sign ha
+  unfold mpz_cmp_ui
+  by_cases h0 : a.size = 0
+  · simp only [h0, if_true]; rw [h2 h0]
+    by_cases hv0 : v = 0
+    · subst hv0; simp [sgn_zero]
+    · simp only [ne_eq, hv0, not_false_eq_true, if_true]; exact sgn_eq_neg (by decide) (by omega)
+  · simp only [h0, if_false]
+    by_cases h1' : a.size = 1
+    · obtain ⟨x, hx, _, _, hval⟩ := Z.one_limb ha (by omega)
+      simp only [h1', if_true, hx, List.getD_cons_zero]
+      have : a.toInt = x := by unfold Z.toInt; rw [if_neg (by omega), hval]
+      rw [this]
+      by_cases g : x > v
+      · rw [if_pos g]; exact sgn_eq_pos (by decide) (by omega)
+      · rw [if_neg g]
+        by_cases l : x < v
+        · rw [if_pos l]; exact sgn_eq_neg (by decide) (by omega)
+        · rw [if_neg l]; have : x = v := by omega
+          subst this; simp [sgn_zero]
+    · simp only [h1', if_false]
+      by_cases hp : a.size > 0
+      · have hb := Z.big_of_two_limbs ha (by omega)
+        have : a.toInt = val a.d := by unfold Z.toInt; rw [if_neg (by omega)]
+        rw [if_pos hp, this]; exact sgn_eq_pos (by decide) (by omega)
+      · have := h1 (by omega)
+        rw [if_neg hp]; exact sgn_eq_neg (by decide) (by omega)
+
+example : mpz_cmp_ui ⟨1, [B - 1]⟩ (B - 1) = 0 ∧ mpz_cmp_ui ⟨2, [0, 1]⟩ (B - 1) = 1 ∧ mpz_cmp_ui ⟨-1, [1]⟩ 0 = -1 := by decide
+
+theorem toS64_toU64 {v : Int} (h1 : LONG_MIN ≤ v) (h2 : v ≤ LONG_MAX) : toS64 (toU64 v) = v := by
+  unfold toS64 toU64 LONG_MIN LONG_MAX at *; omega
+
+/-- mpz_cmp_si (function form) is consistent with the order, for every long v including LONG_MIN. -/
+theorem cmp_si_consistent (a : Z) (ha : a.wf) (v : Int) (hv1 : LONG_MIN ≤ v) (hv2 : v ≤ LONG_MAX) :
+    sgn (mpz_cmp_si a v) = sgn (a.toInt - v) := by
+  obtain ⟨h1, h2, h3⟩ := Z.toInt_sign ha
+  unfold LONG_MIN at hv1; unfold LONG_MAX at hv2
+  unfold mpz_cmp_si
+  rcases lt_trichotomy v 0 with hv | hv | hv
+  · -- v < 0: vsize = -1, |v| as unsigned
+    have hvl : toU64 (toS64 (toU64 (-v))) = (-v).toNat := by unfold toS64 toU64; omega
+    simp only [show ¬ v > 0 by omega, hv, if_true, if_false]
+    by_cases hs : a.size ≠ -1
+    · rw [if_pos hs]
+      by_cases hgt : a.size > -1
+      · rw [if_pos hgt]
+        have : 0 ≤ a.toInt := by
+          rcases eq_or_lt_of_le (show 0 ≤ a.size by omega) with e | e
+          · rw [h2 e.symm]
+          · exact le_of_lt (h3 e)
+        exact sgn_eq_pos (by decide) (by omega)
+      · rw [if_neg hgt]
+        have hb := Z.big_of_two_limbs ha (by omega)
+        have : a.toInt = -(val a.d : Int) := by unfold Z.toInt; rw [if_pos (by omega)]
+        rw [this]; exact sgn_eq_neg (by decide) (by unfold B at hb; omega)
+    · have hs' : a.size = -1 := by omega
+      obtain ⟨x, hx, _, _, hval⟩ := Z.one_limb ha (by omega)
+      have : a.toInt = -(x : Int) := by unfold Z.toInt; rw [if_pos (by omega), hval]
+      rw [if_neg hs, if_neg (by omega), hx, List.getD_cons_zero, hvl, this, hs']
+      by_cases e : x = (-v).toNat
+      · rw [if_pos e]; rw [show -(x : Int) - v = 0 by omega]
+      · rw [if_neg e]
+        by_cases g : x > (-v).toNat
+        · rw [if_pos g]; exact sgn_eq_neg (by decide) (by omega)
+        · rw [if_neg g]; exact sgn_eq_pos (by decide) (by omega)
+  · subst hv
+    simp only [show ¬ (0 : Int) > 0 by omega, if_false]
+    by_cases hs : a.size ≠ 0
+    · rw [if_pos hs]
+      by_cases hgt : a.size > 0
+      · rw [if_pos hgt]; exact sgn_eq_pos (by decide) (by have := h3 hgt; omega)
+      · rw [if_neg hgt]; exact sgn_eq_neg (by decide) (by have := h1 (by omega); omega)
+    · rw [if_neg hs, if_pos (by omega), h2 (by omega)]; decide
+  · simp only [show v > 0 by omega, if_true]
+    have hvl : toU64 v = v.toNat := by unfold toU64; omega
+    by_cases hs : a.size ≠ 1
+    · rw [if_pos hs]
+      by_cases hgt : a.size > 1
+      · have hb := Z.big_of_two_limbs ha (by omega)
+        have : a.toInt = (val a.d : Int) := by unfold Z.toInt; rw [if_neg (by omega)]
+        rw [if_pos hgt, this]; exact sgn_eq_pos (by decide) (by unfold B at hb; omega)
+      · rw [if_neg hgt]
+        have : a.toInt ≤ 0 := by
+          rcases eq_or_lt_of_le (show a.size ≤ 0 by omega) with e | e
+          · rw [h2 e]
+          · exact le_of_lt (h1 e)
+        exact sgn_eq_neg (by decide) (by omega)
+    · have hs' : a.size = 1 := by omega
+      obtain ⟨x, hx, _, _, hval⟩ := Z.one_limb ha (by omega)
+      have : a.toInt = (x : Int) := by unfold Z.toInt; rw [if_neg (by omega), hval]
+      rw [if_neg hs, if_neg (by omega), hx, List.getD_cons_zero, hvl, this, hs']
+      by_cases e : x = v.toNat
+      · rw [if_pos e]; rw [show (x : Int) - v = 0 by omega]
+      · rw [if_neg e]
+        by_cases g : x > v.toNat
+        · rw [if_pos g]; exact sgn_eq_pos (by decide) (by omega)
+        · rw [if_neg g]; exact sgn_eq_neg (by decide) (by omega)
+
+example : mpz_cmp_si ⟨-1, [2 ^ 63]⟩ LONG_MIN = 0 ∧ mpz_cmp_si ⟨-1, [2 ^ 63 + 1]⟩ LONG_MIN = -1 ∧
+    mpz_cmp_si ⟨1, [2 ^ 63]⟩ LONG_MAX = 1 ∧ mpz_cmp_si ⟨-2, [0, 1]⟩ (-5) = -1 := by decide
+
+/-- The macro forms (constant or run-time argument) give the same sign as the function forms' specification. -/
+theorem cmp_macros_consistent (c : Bool) (a : Z) (ha : a.wf) :
+    (∀ v, v < B → sgn (mpz_cmp_ui_macro c a v) = sgn (a.toInt - v)) ∧
+    (∀ v : Int, LONG_MIN ≤ v → v ≤ LONG_MAX → sgn (mpz_cmp_si_macro c a v) = sgn (a.toInt - v)) := by
+  constructor
+  · intro v hv
+    unfold mpz_cmp_ui_macro
+    by_cases h : (c && v == 0) = true
+    · rw [if_pos h]
+      have : v = 0 := by simp at h; exact h.2
+      subst this; rw [sgn_spec a ha, sgn_sgn]; simp
+    · rw [if_neg h]; exact cmp_ui_consistent a ha v hv
+  · intro v h1 h2
+    unfold mpz_cmp_si_macro
+    by_cases h : (c && v == 0) = true
+    · rw [if_pos h]
+      have : v = 0 := by simp at h; exact h.2
+      subst this; rw [sgn_spec a ha, sgn_sgn]; simp
+    · rw [if_neg h]
+      by_cases g : (c && decide (v > 0)) = true
+      · rw [if_pos g]
+        have vp : v > 0 := by simp at g; exact g.2
+        have := cmp_ui_consistent a ha (toU64 v) (by unfold toU64 B LONG_MAX at *; omega)
+        rw [this]; congr 2; unfold toU64 LONG_MAX at *; omega
+      · rw [if_neg g]; exact cmp_si_consistent a ha v h1 h2
+
+example : mpz_cmp_si_macro true ⟨-1, [7]⟩ 0 = -1 ∧ mpz_cmp_si_macro true ⟨1, [7]⟩ 7 = 0 ∧ mpz_cmp_ui_macro true ⟨2, [1, 1]⟩ 0 = 1 := by decide
+
+/-- mpz_cmpabs compares absolute values. -/
+theorem cmpabs_spec (a b : Z) (ha : a.wf) (hb : b.wf) :
+    sgn (mpz_cmpabs a b) = sgn ((a.toInt.natAbs : Int) - b.toInt.natAbs) := by
+  rw [Z.natAbs_toInt, Z.natAbs_toInt]
+  obtain ⟨a0, a1, a2⟩ := Z.wf_bounds ha
+  obtain ⟨b0, b1, b2⟩ := Z.wf_bounds hb
+  unfold mpz_cmpabs
+  dsimp only
+  by_cases hd : ((a.size.natAbs : Int) - b.size.natAbs) ≠ 0
+  · rw [if_pos hd]
+    by_cases hp : (a.size.natAbs : Int) - b.size.natAbs > 0
+    · have := b1
+      have : B ^ b.size.natAbs ≤ B ^ (a.size.natAbs - 1) := pow_le_pow_B (by omega)
+      have := a1 (by omega)
+      exact sgn_eq_pos hp (by omega)
+    · have : B ^ a.size.natAbs ≤ B ^ (b.size.natAbs - 1) := pow_le_pow_B (by omega)
+      have := b1 (by omega)
+      exact sgn_eq_neg (by omega) (by omega)
+  · rw [if_neg hd]
+    rw [cmp_spec _ _ ha.2.1 hb.2.1 (by rw [ha.1, hb.1]; omega), sgn_sgn]
+
+example : mpz_cmpabs ⟨-2, [5, 7]⟩ ⟨2, [4, 7]⟩ = 1 ∧ mpz_cmpabs ⟨-1, [5]⟩ ⟨2, [4, 7]⟩ = -1 := by decide
+
+/-- mpz_cmpabs_ui compares |a| with v. -/
+theorem cmpabs_ui_spec (a : Z) (ha : a.wf) (v : Nat) (hv : v < B) :
+    sgn (mpz_cmpabs_ui a v) = sgn ((a.toInt.natAbs : Int) - v) := by
+  rw [Z.natAbs_toInt]
+  obtain ⟨a0, a1, a2⟩ := Z.wf_bounds ha
+  unfold mpz_cmpabs_ui
+  by_cases h0 : a.size = 0
+  · simp only [h0, if_true]; rw [a0 h0]
+    by_cases hv0 : v = 0
+    · subst hv0; simp [sgn_zero]
+    · simp only [ne_eq, hv0, not_false_eq_true, if_true]; exact sgn_eq_neg (by decide) (by omega)
+  · simp only [h0, if_false]
+    by_cases h1' : a.size.natAbs = 1
+    · obtain ⟨x, hx, _, _, hval⟩ := Z.one_limb ha h1'
+      simp only [h1', if_true, hx, List.getD_cons_zero]
+      rw [← hx, hval]
+      by_cases g : x > v
+      · rw [if_pos g]; exact sgn_eq_pos (by decide) (by omega)
+      · rw [if_neg g]
+        by_cases l : x < v
+        · rw [if_pos l]; exact sgn_eq_neg (by decide) (by omega)
+        · rw [if_neg l]; have : x = v := by omega
+          subst this; simp [sgn_zero]
+    · simp only [h1', if_false]
+      have hb := Z.big_of_two_limbs ha (by omega)
+      exact sgn_eq_pos (by decide) (by omega)
+
+example : mpz_cmpabs_ui ⟨-1, [9]⟩ 9 = 0 ∧ mpz_cmpabs_ui ⟨-2, [0, 1]⟩ (B - 1) = 1 := by decide
+
+/-! ## 2. fits_*_p: true exactly on the representable range -/
+
+/-- Signed predicates (fits_s.h): for a type with range [-minabs, maxv] (maxv, minabs at most one limb),
+    the predicate holds iff the value is in the range. -/
+theorem fits_s_iff_range (maxv minabs : Nat) (hm : maxv < B) (hn : minabs < B) (z : Z) (hz : z.wf) :
+    fits_s maxv minabs z = true ↔ (-(minabs : Int) ≤ z.toInt ∧ z.toInt ≤ maxv) := by
+  obtain ⟨h1, h2, h3⟩ := Z.toInt_sign hz
+  unfold fits_s
+  by_cases e0 : z.size = 0
+  · simp only [e0, if_true, true_iff]; rw [h2 e0]; omega
+  · by_cases e1 : z.size = 1
+    · obtain ⟨x, hx, _, _, hval⟩ := Z.one_limb hz (by omega)
+      have : z.toInt = x := by unfold Z.toInt; rw [if_neg (by omega), hval]
+      simp only [e1, hx, List.getD_cons_zero, this]
+      simp only [show ¬ ((1 : Int) = 0) by omega, if_false, if_true, decide_eq_true_eq]; omega
+    · by_cases e2 : z.size = -1
+      · obtain ⟨x, hx, _, _, hval⟩ := Z.one_limb hz (by omega)
+        have : z.toInt = -(x : Int) := by unfold Z.toInt; rw [if_pos (by omega), hval]
+        simp only [e2, hx, List.getD_cons_zero, this]
+        simp only [show ¬ ((-1 : Int) = 0) by omega, show ¬ ((-1 : Int) = 1) by omega, if_false, if_true, decide_eq_true_eq]; omega
+      · simp only [e0, e1, e2, if_false]
+        have hb := Z.big_of_two_limbs hz (by omega)
+        have := Z.natAbs_toInt z
+        constructor
+        · intro h; exact absurd h (by decide)
+        · intro ⟨l, u⟩; omega
+
+/-- Unsigned predicates (__GMPZ_FITS_UTYPE_P): true iff 0 ≤ value ≤ maxval. -/
+theorem fits_u_iff_range (maxv : Nat) (hm : maxv < B) (z : Z) (hz : z.wf) :
+    fits_u maxv z = true ↔ (0 ≤ z.toInt ∧ z.toInt ≤ maxv) := by
+  obtain ⟨h1, h2, h3⟩ := Z.toInt_sign hz
+  unfold fits_u
+  by_cases e0 : z.size = 0
+  · simp only [e0, decide_true, Bool.true_or, true_iff]; rw [h2 e0]; omega
+  · by_cases e1 : z.size = 1
+    · obtain ⟨x, hx, _, _, hval⟩ := Z.one_limb hz (by omega)
+      have : z.toInt = x := by unfold Z.toInt; rw [if_neg (by omega), hval]
+      simp only [e1, hx, List.getD_cons_zero, this]
+      simp only [show ¬ ((1 : Int) = 0) by omega, decide_false, decide_true, Bool.false_or, Bool.true_and, decide_eq_true_eq]; omega
+    · simp only [e0, e1, decide_false, Bool.false_and, Bool.false_or]
+      constructor
+      · intro h; exact absurd h (by decide)
+      · intro ⟨l, u⟩
+        exfalso
+        by_cases hn : z.size < 0
+        · have := h1 hn; omega
+        · have hb := Z.big_of_two_limbs hz (by omega)
+          have : z.toInt = (val z.d : Int) := by unfold Z.toInt; rw [if_neg hn]
+          omega
+
+/-- fits_iff_range: each of the six documented predicates (and MPIR's _ui/_si forms) is true exactly when the
+    value lies in the C type's range. -/
+theorem fits_iff_range (z : Z) (hz : z.wf) :
+    (mpz_fits_ulong_p z = true ↔ 0 ≤ z.toInt ∧ z.toInt ≤ 2 ^ 64 - 1) ∧
+    (mpz_fits_slong_p z = true ↔ -(2 ^ 63) ≤ z.toInt ∧ z.toInt ≤ 2 ^ 63 - 1) ∧
+    (mpz_fits_uint_p z = true ↔ 0 ≤ z.toInt ∧ z.toInt ≤ 2 ^ 32 - 1) ∧
+    (mpz_fits_sint_p z = true ↔ -(2 ^ 31) ≤ z.toInt ∧ z.toInt ≤ 2 ^ 31 - 1) ∧
+    (mpz_fits_ushort_p z = true ↔ 0 ≤ z.toInt ∧ z.toInt ≤ 2 ^ 16 - 1) ∧
+    (mpz_fits_sshort_p z = true ↔ -(2 ^ 15) ≤ z.toInt ∧ z.toInt ≤ 2 ^ 15 - 1) ∧
+    (mpz_fits_ui_p z = true ↔ 0 ≤ z.toInt ∧ z.toInt ≤ 2 ^ 64 - 1) ∧
+    (mpz_fits_si_p z = true ↔ -(2 ^ 63) ≤ z.toInt ∧ z.toInt ≤ 2 ^ 63 - 1) := by
+  have hB : B = 2 ^ 64 := rfl
+  refine ⟨?_, ?_, ?_, ?_, ?_, ?_, ?_, ?_⟩
+  · have := fits_u_iff_range (2 ^ 64 - 1) (by rw [hB]; norm_num) z hz; simpa [mpz_fits_ulong_p] using this
+  · have := fits_s_iff_range (2 ^ 63 - 1) (2 ^ 63) (by rw [hB]; norm_num) (by rw [hB]; norm_num) z hz
+    simpa [mpz_fits_slong_p] using this
+  · have := fits_u_iff_range (2 ^ 32 - 1) (by rw [hB]; norm_num) z hz; simpa [mpz_fits_uint_p] using this
+  · have := fits_s_iff_range (2 ^ 31 - 1) (2 ^ 31) (by rw [hB]; norm_num) (by rw [hB]; norm_num) z hz
+    simpa [mpz_fits_sint_p] using this
+  · have := fits_u_iff_range (2 ^ 16 - 1) (by rw [hB]; norm_num) z hz; simpa [mpz_fits_ushort_p] using this
+  · have := fits_s_iff_range (2 ^ 15 - 1) (2 ^ 15) (by rw [hB]; norm_num) (by rw [hB]; norm_num) z hz
+    simpa [mpz_fits_sshort_p] using this
+  · have := fits_u_iff_range (2 ^ 64 - 1) (by rw [hB]; norm_num) z hz; simpa [mpz_fits_ui_p] using this
+  · have := fits_s_iff_range (2 ^ 63 - 1) (2 ^ 63) (by rw [hB]; norm_num) (by rw [hB]; norm_num) z hz
+    simpa [mpz_fits_si_p] using this
+
+example : mpz_fits_slong_p ⟨-1, [2 ^ 63]⟩ = true ∧ mpz_fits_slong_p ⟨-1, [2 ^ 63 + 1]⟩ = false ∧
+    mpz_fits_slong_p ⟨1, [2 ^ 63]⟩ = false ∧ mpz_fits_ushort_p ⟨1, [65535]⟩ = true ∧ mpz_fits_ushort_p ⟨1, [65536]⟩ = false ∧
+    mpz_fits_ulong_p ⟨2, [0, 1]⟩ = false ∧ mpz_fits_uint_p ⟨-1, [1]⟩ = false := by decide
+
+/-! ## 3. get_ui / get_si / get_ux / get_sx and set_ui / set_si / set_ux / set_sx -/
+
+/-- mpz_get_ui and mpz_get_ux: the least significant 64 bits of |op| (the sign is ignored), for every op. -/
+theorem get_ui_spec (z : Z) (hz : z.wf) :
+    mpz_get_ui z = z.toInt.natAbs % 2 ^ 64 ∧ mpz_get_ux z = z.toInt.natAbs % 2 ^ 64 := by
+  rw [Z.natAbs_toInt]
+  obtain ⟨r, hr, hlt⟩ := val_split z.d hz.2.1
+  have h0 := (Z.wf_bounds hz).1
+  unfold mpz_get_ui mpz_get_ux
+  by_cases e : z.size = 0
+  · simp [e, h0 e]
+  · simp only [ne_eq, e, not_false_eq_true, if_true]; rw [hr]; unfold B at *; omega
+
+example : mpz_get_ui ⟨-2, [5, 9]⟩ = 5 ∧ mpz_get_ux ⟨0, []⟩ = 0 := by decide
+
+/-- mpz_get_si: exact when op fits a long; otherwise the low 63 bits with the sign of op
+    (for negative op: -(((|op| - 1) mod 2^63) + 1), so that -2^63 is handled). -/
+theorem get_si_spec (z : Z) (hz : z.wf) :
+    (LONG_MIN ≤ z.toInt → z.toInt ≤ LONG_MAX → mpz_get_si z = z.toInt) ∧
+    (0 < z.toInt → mpz_get_si z = z.toInt % 2 ^ 63) ∧
+    (z.toInt < 0 → mpz_get_si z = -((-z.toInt - 1) % 2 ^ 63) - 1) := by
+  obtain ⟨r, hr, hlt⟩ := val_split z.d hz.2.1
+  obtain ⟨s1, s2, s3⟩ := Z.toInt_sign hz
+  have h0 := (Z.wf_bounds hz).1
+  have key : (0 < z.toInt → mpz_get_si z = z.toInt % 2 ^ 63) ∧
+      (z.toInt < 0 → mpz_get_si z = -((-z.toInt - 1) % 2 ^ 63) - 1) ∧ (z.toInt = 0 → mpz_get_si z = 0) := by
+    refine ⟨fun hp => ?_, fun hn => ?_, fun he => ?_⟩
+    · have hs : z.size > 0 := by
+        rcases lt_trichotomy z.size 0 with h | h | h
+        · have := s1 h; omega
+        · have := s2 h; omega
+        · exact h
+      unfold mpz_get_si Z.toInt
+      simp only [hs, if_true, show ¬ z.size < 0 by omega, if_false]
+      rw [hr]; unfold B at *; omega
+    · have hs : z.size < 0 := by
+        rcases lt_trichotomy z.size 0 with h | h | h
+        · exact h
+        · have := s2 h; omega
+        · have := s3 h; omega
+      have hv : 0 < val z.d := by unfold Z.toInt at hn; rw [if_pos hs] at hn; omega
+      unfold mpz_get_si Z.toInt
+      simp only [hs, if_true, show ¬ z.size > 0 by omega, if_false]
+      rw [hr] at hv ⊢; unfold B at *; omega
+    · have hs : z.size = 0 := by
+        rcases lt_trichotomy z.size 0 with h | h | h
+        · have := s1 h; omega
+        · exact h
+        · have := s3 h; omega
+      unfold mpz_get_si; simp [hs]
+  refine ⟨fun l u => ?_, key.1, key.2.1⟩
+  unfold LONG_MIN at l; unfold LONG_MAX at u
+  rcases lt_trichotomy z.toInt 0 with h | h | h
+  · rw [key.2.1 h]; omega
+  · rw [key.2.2 h, h]
+  · rw [key.1 h]; omega
+
+example : mpz_get_si ⟨-1, [2 ^ 63]⟩ = LONG_MIN ∧ mpz_get_si ⟨1, [2 ^ 63 - 1]⟩ = LONG_MAX ∧
+    mpz_get_si ⟨-2, [5, 1]⟩ = -5 ∧ mpz_get_si ⟨1, [2 ^ 63 + 5]⟩ = 5 := by decide
+
+/-- mpz_get_sx: exact when op fits an intmax_t; in general the value modulo 2^64 read as a signed number. -/
+theorem get_sx_spec (z : Z) (hz : z.wf) :
+    mpz_get_sx z = toS64 (toU64 z.toInt) ∧
+    (LONG_MIN ≤ z.toInt → z.toInt ≤ LONG_MAX → mpz_get_sx z = z.toInt) := by
+  obtain ⟨r, hr, hlt⟩ := val_split z.d hz.2.1
+  have h0 := (Z.wf_bounds hz).1
+  have gen : mpz_get_sx z = toS64 (toU64 z.toInt) := by
+    unfold mpz_get_sx Z.toInt
+    by_cases e : z.size = 0
+    · simp [e, h0 e]; decide
+    · simp only [ne_eq, e, not_false_eq_true, if_true]
+      by_cases hn : z.size < 0
+      · simp only [hn, if_true]; rw [hr]; unfold toS64 toU64 B at *; omega
+      · simp only [hn, if_false]; rw [hr]; unfold toS64 toU64 B at *; omega
+  exact ⟨gen, fun l u => by rw [gen]; exact toS64_toU64 l u⟩
+
+example : mpz_get_sx ⟨-1, [2 ^ 63]⟩ = LONG_MIN ∧ mpz_get_sx ⟨-1, [7]⟩ = -7 ∧ mpz_get_sx ⟨1, [2 ^ 63]⟩ = LONG_MIN := by decide
+
+/-- mpz_set_ui / mpz_set_ux: the result is well formed and has exactly the value of the argument. -/
+theorem set_ui_spec (v : Nat) (hv : v < B) :
+    (mpz_set_ui v).wf ∧ (mpz_set_ui v).toInt = v ∧ (mpz_set_ux v).wf ∧ (mpz_set_ux v).toInt = v := by
+  have main : (mpz_set_ui v).wf ∧ (mpz_set_ui v).toInt = v := by
+    unfold mpz_set_ui
+    by_cases h : v = 0
+    · subst h; exact ⟨⟨rfl, Limbs_nil, fun h => absurd rfl h⟩, rfl⟩
+    · simp only [ne_eq, h, not_false_eq_true, if_true]
+      exact ⟨⟨rfl, Limbs_cons.mpr ⟨hv, Limbs_nil⟩, fun _ => by simp [h]⟩, by simp [Z.toInt]⟩
+  exact ⟨main.1, main.2, main.1, main.2⟩
+
+example : mpz_set_ui (B - 1) = ⟨1, [B - 1]⟩ ∧ mpz_set_ui 0 = ⟨0, []⟩ := by decide
+
+/-- mpz_set_si / mpz_set_sx: for every long (LONG_MIN included) the result is well formed and has the value. -/
+theorem set_si_spec (v : Int) (h1 : LONG_MIN ≤ v) (h2 : v ≤ LONG_MAX) :
+    (mpz_set_si v).wf ∧ (mpz_set_si v).toInt = v ∧ (mpz_set_sx v).wf ∧ (mpz_set_sx v).toInt = v := by
+  unfold LONG_MIN at h1; unfold LONG_MAX at h2
+  rcases lt_trichotomy v 0 with h | h | h
+  · have e : toU64 (-v) = (-v).toNat := by unfold toU64; omega
+    have ne : (-v).toNat ≠ 0 := by omega
+    have lt : (-v).toNat < B := by unfold B; omega
+    have w : Z.wf ⟨-1, [(-v).toNat]⟩ := ⟨rfl, Limbs_cons.mpr ⟨lt, Limbs_nil⟩, fun _ => by simp [ne]⟩
+    have t : Z.toInt ⟨-1, [(-v).toNat]⟩ = v := by simp [Z.toInt]; omega
+    have a : mpz_set_si v = ⟨-1, [(-v).toNat]⟩ := by
+      unfold mpz_set_si; simp only [show ¬ v ≥ 0 by omega, if_false, e, ne_eq, ne, not_false_eq_true, if_true]
+    have b : mpz_set_sx v = ⟨-1, [(-v).toNat]⟩ := by
+      unfold mpz_set_sx; simp only [h, if_true, e, ne_eq, show v ≠ 0 by omega, not_false_eq_true]
+    rw [a, b]; exact ⟨w, t, w, t⟩
+  · subst h; exact ⟨⟨rfl, Limbs_nil, fun h => absurd rfl h⟩, rfl, ⟨rfl, Limbs_nil, fun h => absurd rfl h⟩, rfl⟩
+  · have e : toU64 v = v.toNat := by unfold toU64; omega
+    have ne : v.toNat ≠ 0 := by omega
+    have lt : v.toNat < B := by unfold B; omega
+    have w : Z.wf ⟨1, [v.toNat]⟩ := ⟨rfl, Limbs_cons.mpr ⟨lt, Limbs_nil⟩, fun _ => by simp [ne]⟩
+    have t : Z.toInt ⟨1, [v.toNat]⟩ = v := by simp [Z.toInt]; omega
+    have a : mpz_set_si v = ⟨1, [v.toNat]⟩ := by
+      unfold mpz_set_si; simp only [show v ≥ 0 by omega, if_true, e, ne_eq, ne, not_false_eq_true]
+    have b : mpz_set_sx v = ⟨1, [v.toNat]⟩ := by
+      unfold mpz_set_sx; simp only [show ¬ v < 0 by omega, if_false, e, ne_eq, show v ≠ 0 by omega, not_false_eq_true, if_true]
+    rw [a, b]; exact ⟨w, t, w, t⟩
+
+example : mpz_set_si LONG_MIN = ⟨-1, [2 ^ 63]⟩ ∧ mpz_set_sx (-5) = ⟨-1, [5]⟩ ∧ mpz_set_si LONG_MAX = ⟨1, [2 ^ 63 - 1]⟩ := by decide
+
 end Mpir.Conv
